@@ -1202,7 +1202,10 @@ fn handle_overflow<const UPPER: bool>(
                 || lhs.gt(&lhs_zero) && rhs.gt(&rhs_zero)
         }
         Operator::Plus => lhs.ge(&lhs_zero),
-        Operator::Minus => lhs.ge(rhs),
+        // `lhs - rhs` can only overflow upwards when `rhs` is negative (the operands
+        // may have different types, e.g. timestamp - duration, so they cannot be
+        // compared with each other).
+        Operator::Minus => rhs.lt(&rhs_zero),
         _ => {
             unreachable!()
         }
